@@ -18,7 +18,7 @@
 //   reportbroken k, reportbrokenms: the first k VMs report "broken" in their probe answers from that
 //   age on (event "broken" when such an answer is first given); onetype: one instance type for all
 //   stalelist: the queue is empty at first; a list call of the pool is caught (snapshot: no instances)
-//   and held; only then the containers are queued; when the first container has a (slowly detaching,
+//   and held; only then the containers are queued; when the a container has a (slowly detaching,
 //   still Locked) process on the first instance - created after the snapshot - the stale answer is
 //   released; later list calls wait until a second process of that container has appeared or 1.5 s
 //   have passed.  The pool must not drop the instance it created after the list call began.
@@ -275,6 +275,25 @@ type vListGate struct {
 	caught  chan struct{}
 	release chan struct{}
 	open    chan struct{}
+}
+
+// With a list gate the cloud behaves like one whose create call answers with a usable address (the
+// stub's Create answers before its SSH service listens, so that an instance can only be reached after
+// a later list call - which this scenario withholds).
+func (p vPersistentSet) Create(it arvados.InstanceType, image cloud.ImageID, tags cloud.InstanceTags, cmd cloud.InitCommand, key ssh.PublicKey) (cloud.Instance, error) {
+	inst, err := p.InstanceSet.Create(it, image, tags, cmd, key)
+	if err != nil || p.g == nil {
+		return inst, err
+	}
+	for t0 := time.Now(); time.Since(t0) < 5*time.Second; time.Sleep(time.Millisecond) {
+		all, _ := p.InstanceSet.Instances(nil)
+		for _, i := range all {
+			if i.ID() == inst.ID() && i.Address() != "" {
+				return i, nil
+			}
+		}
+	}
+	return inst, nil
 }
 
 func (p vPersistentSet) Instances(tags cloud.InstanceTags) ([]cloud.Instance, error) {
@@ -611,7 +630,7 @@ func vE2EOne(t *testing.T, scn *vE2EScenario, tw *vTraceWriter, hostpriv ssh.Sig
 		for _, ctr := range deferred {
 			e.queue.Notify(ctr)
 		}
-		uuid1 := test.ContainerUUID(1)
+		uuid1 := ""
 		if os.Getenv("VERIF_DEBUG") != "" {
 			go func() {
 				for i := 0; i < 6; i++ {
@@ -626,12 +645,13 @@ func vE2EOne(t *testing.T, scn *vE2EScenario, tw *vTraceWriter, hostpriv ssh.Sig
 		}
 		for t0 := time.Now(); applicable && time.Since(t0) < 10*time.Second; time.Sleep(time.Millisecond) {
 			e.vmMu.Lock()
-			has := len(e.vms) > 0
-			if has {
-				_, has = e.vms[0].VProcs()[uuid1]
+			if len(e.vms) > 0 {
+				for u := range e.vms[0].VProcs() {
+					uuid1 = u // the container that landed on the first (slowly detaching) instance
+				}
 			}
 			e.vmMu.Unlock()
-			if has {
+			if uuid1 != "" {
 				break
 			}
 		}
